@@ -124,6 +124,11 @@ def spatial_terms(P, c, cfg):
     return terms
 
 
+def cfg_pick(cfg):
+    """a deterministic small integer derived from the configuration (choice of a side)"""
+    return sum(q[0] for q in opsdrive._flat_pairs(cfg["phi"])) % 7
+
+
 def observe(cfg, want):
     P, np = drive.pf(), drive.np()
     from scipy.sparse.linalg import spsolve
@@ -243,6 +248,25 @@ def observe(cfg, want):
         # (no assignment to .value in between: only the boundary data changed)
         P.solvePDE(v_h, terms_for(v_h, derive_gamma(xs2, interior(xs))))
         obs["r_history"] = lift_sol(np.asarray(v_h._value))
+        # multi-step history with a boundary-KIND switch: one side is made periodic, a step is taken, the side
+        # is switched back (nothing else is touched), and the next step must be the step of the configured
+        # (non-periodic) problem again: target x* from the state the first step left behind
+        pax = [a for a in range(d) if drive.AXIS_LABELS[cfg["cls"]][a] != "r"
+               and not (cfg["cls"] == "SphericalGrid3D" and drive.AXIS_LABELS[cfg["cls"]][a] == "theta")
+               and not any(cfg["bc"][s_]["periodic"] for s_ in SIDES[a])]
+        if pax:
+            try:
+                v_p = P.CellVariable(c.m, old.copy(), bc_with(cfg, "c", c.m, d))
+                side = getattr(v_p.BCs, SIDES[pax[0]][cfg_pick(cfg) % 2])
+                side.periodic = True
+                P.solvePDE(v_p, terms_for(v_p, g1))
+                mid = np.asarray(v_p.value).copy()
+                if np.all(np.isfinite(mid)) and np.max(np.abs(mid)) < 1e6:
+                    side.periodic = False
+                    P.solvePDE(v_p, terms_for(v_p, derive_gamma(xs, mid)))
+                    obs["r_history_per"] = lift_sol(np.asarray(v_p._value))
+            except Exception:       # noqa: BLE001  (a singular intermediate periodic problem: clause not evaluated)
+                pass
         # pieces needed by the residual clause (C12), all lifted from the code
         obs["Aspatial"] = opsdrive.mat_entries(A, c.dims) if A is not None else []
         # steady state as a fixed point: gamma_s := A x*, start from x*  (any dt, alpha)
